@@ -944,8 +944,10 @@ pub fn verify_cross_table_lookups_circuit<
             );
 
             // Get elements looking into `looked_table` that are not associated to any STARK.
-            let extra_sum = ctl_extra_looking_sum.map(|v| v[c]).unwrap_or_default();
-            looking_zs_sum = builder.add(looking_zs_sum, extra_sum);
+            // Without extra looking values the sum is left as it is: `Target::default()` is not the constant zero.
+            if let Some(extra_sums) = ctl_extra_looking_sum {
+                looking_zs_sum = builder.add(looking_zs_sum, extra_sums[c]);
+            }
 
             // Get the looked table CTL polynomial opening.
             let looked_z = *ctl_zs_openings[looked_table.table].next().unwrap();
